@@ -600,10 +600,9 @@ class BinaryReward(Rewards):
         return create_shape(value,shape)
 
     def __eq__(self, o: object) -> bool:
-        return o == self._argmax or \
-            (isinstance(o,BinaryReward) and \
-            o._argmax == self._argmax and \
-            o._value == self._value)
+        if isinstance(o,BinaryReward):
+            return o._argmax == self._argmax and o._value == self._value
+        return o == self._argmax
 
     def __getstate__(self):
         args = (self._argmax,) if self._value == 1 else (self._argmax,self._value)
@@ -711,12 +710,9 @@ class DiscreteReward(Rewards):
         return f"DiscreteReward({try_else(lambda:minimize(st),str(st))})"
 
     def __eq__(self, o: object) -> bool:
-
-        return o == self.rewards or \
-            (isinstance(o,DiscreteReward) and\
-            o.actions == self.actions and\
-            o.rewards == self.rewards and\
-            o._default == self._default)
+        if isinstance(o,DiscreteReward):
+            return o.actions == self.actions and o.rewards == self.rewards and o._default == self._default
+        return o == self.rewards
 
     def __getstate__(self):
         args = (self._state,self._default)
